@@ -613,6 +613,21 @@ func (c *ctx) simplify(adj refmodel.Adj) {
 	}
 	if weighted {
 		in = &simenv.SimWGraph{SimGraph: simenv.SimGraph{Adj: adj, W: W}}
+		if c.g.Chance(1, 4) {
+			// the caller wraps a weighted graph in WeightedUnit to ask for edge COUNTS:
+			// every edge then weighs 1 whatever the wrapped graph says
+			in = graph.WeightedUnit{Graph: in}
+			// the wrapped graph keeps its own weights; the expected sums use 1 per edge
+			W1 := make([][]float64, len(W))
+			for u := range W {
+				W1[u] = make([]float64, len(W[u]))
+				for e := range W1[u] {
+					W1[u][e] = 1
+				}
+			}
+			W = W1
+			c.probe("simplify_weightedunit_around_weighted_graph")
+		}
 	} else {
 		in = &simenv.SimGraph{Adj: adj}
 	}
@@ -913,9 +928,42 @@ func (c *ctx) equal(adj refmodel.Adj) {
 	for u := range adj {
 		other[u] = append([]int(nil), adj[u]...)
 	}
-	variant := c.g.Pick(2, 3, 3, 1)
+	variant := c.g.Pick(2, 3, 3, 1, 2)
 	want := true
+	g1 := adj
 	switch variant {
+	case 4:
+		// two different multisets with equal length, sum, sum of squares (and for
+		// the longer pairs sum of cubes): what an order-independent checksum
+		// comparison cannot tell apart (Prouhet-Tarry-Escott pairs, shifted)
+		pairs := [][2][]int{{{0, 4, 5}, {1, 2, 6}}, {{0, 3, 3}, {1, 1, 4}}, {{0, 4, 7, 11}, {1, 2, 9, 10}}, {{0, 5, 6, 11}, {1, 3, 8, 10}}}
+		pr := pairs[c.g.Intn(len(pairs))]
+		maxv := pr[1][len(pr[1])-1]
+		if pr[0][len(pr[0])-1] > maxv {
+			maxv = pr[0][len(pr[0])-1]
+		}
+		if n <= maxv {
+			variant = 0
+			break
+		}
+		k := c.g.Intn(n - maxv)
+		u := c.g.Intn(n)
+		extra := append([]int(nil), adj[u]...)
+		g1 = make(refmodel.Adj, n)
+		copy(g1, adj)
+		rowA, rowB := append([]int(nil), extra...), append([]int(nil), extra...)
+		for i := range pr[0] {
+			rowA = append(rowA, pr[0][i]+k)
+			rowB = append(rowB, pr[1][i]+k)
+		}
+		pa, pb := c.g.Perm(len(rowA)), c.g.Perm(len(rowB))
+		ra, rb := make([]int, len(rowA)), make([]int, len(rowB))
+		for i := range pa {
+			ra[i], rb[i] = rowA[pa[i]], rowB[pb[i]]
+		}
+		g1[u], other[u] = ra, rb
+		want = false
+		c.probe("equal_lists_with_equal_power_sums")
 	case 0: // identical
 	case 1: // permuted adjacency lists: equal as multisets
 		for u := range other {
@@ -960,7 +1008,7 @@ func (c *ctx) equal(adj refmodel.Adj) {
 	c.hash.Str(fmt.Sprintf("Equal%d", variant))
 	c.op("Equal")
 	var got bool
-	if pv := c.try(func() { got = graph.Equal(&simenv.SimGraph{Adj: adj}, &simenv.SimGraph{Adj: other}) }); pv != nil {
+	if pv := c.try(func() { got = graph.Equal(&simenv.SimGraph{Adj: g1}, &simenv.SimGraph{Adj: other}) }); pv != nil {
 		c.fail("equal", "Equal", "panic", "Equal panicked: %v", simkitStr(pv))
 		return
 	}
